@@ -708,10 +708,19 @@ func (g *graph) compile(ctx context.Context, opt *graphCompileOptions) (*composa
 		}
 	}
 	// a pass-through node that is not connected to anything never gets a type either
+	var untyped []string
 	for name, node := range g.nodes {
 		if node.inputType() == nil || node.outputType() == nil {
-			return nil, fmt.Errorf("node[%s]'s input or output types cannot be inferred", name)
+			untyped = append(untyped, name)
+		} else if node.cr != nil && node.cr.isPassthrough && node.cr.genericHelper == nil {
+			// a pass-through with an input key and an output key looks typed from both sides (map[string]any), so
+			// no edge ever gives the value it carries a type
+			untyped = append(untyped, name)
 		}
+	}
+	if len(untyped) > 0 {
+		sort.Strings(untyped) // the same node is named on every attempt
+		return nil, fmt.Errorf("node[%s]'s input or output types cannot be inferred", untyped[0])
 	}
 
 	// pre-node handlers of this compilation: a copy, so that compiling the same graph again (e.g. a graph
@@ -1128,10 +1137,16 @@ func validateDAG(chanSubscribeTo map[string]*chanCall, controlPredecessors map[s
 		}
 	}
 
+	// name the same node on every attempt, whatever order the map is visited in
+	var looped []string
 	for k, v := range m {
 		if v > 0 {
-			return fmt.Errorf("DAG invalid, node[%s] has loop", k)
+			looped = append(looped, k)
 		}
+	}
+	if len(looped) > 0 {
+		sort.Strings(looped)
+		return fmt.Errorf("DAG invalid, node[%s] has loop", looped[0])
 	}
 	return nil
 }
